@@ -6,15 +6,18 @@ NZ = "menelaus.injection.noise:"
 TARGETS = [("fn", FM + "FeatureShiftInjector.__call__"), ("fn", FM + "FeatureSwapInjector.__call__"),
            ("fn", LM + "LabelSwapInjector.__call__"), ("fn", LM + "LabelJoinInjector.__call__"),
            ("fn", NZ + "BrownianNoiseInjector._random_walk"), ("fn", NZ + "BrownianNoiseInjector.__call__"),
+           ("fn", LM + "LabelProbabilityInjector.__call__"), ("fn", LM + "LabelDirichletInjector.__call__"),
            ("lemma", "swap_class_involution")]
 LEVEL = "exploration"
 LEVEL_TEXT = ('Bounded: every injector on ndarray / DataFrame data over all windows 0 <= from <= to <= n (exhaustive for small n), fresh and re-used instances: type, shape, labels, untouched cells, documented effect inside the window. Class frequencies of the resampling injectors are a statistical claim and not covered. '
               'Deductive (counted separately): FeatureShift / FeatureSwap / LabelSwap / LabelJoin / BrownianNoise __call__ (with Injector._preprocess / _postprocess inlined, both container cases, arbitrary remembered _columns) '
               'are proved against contracts over content-level 2-D arrays: same container type, shape and labels; every cell outside the window rows or the targeted columns equals the input cell; inside the window exactly the documented effect '
               '(shift by shift_factor*(alpha + window mean); the two columns exchanged; classes exchanged by swap_class, an involution by lemma; classes merged; a random walk from x0 with +-1/sqrt(steps) increments, _random_walk proved with a loop invariant); the input is not modified. '
-              'FeatureCoverInjector (pandas groupby / sample) and the resampling injectors are bounded only, hence exploration.')
+              'LabelProbabilityInjector / LabelDirichletInjector: same container, rows outside the window unchanged, every row of the window is a copy of some row of the input window (index bag invariant over the class loop), input untouched; their probability bookkeeping is opaque, so the class frequencies are decided by the bounded tier only (exact for zero probabilities, 6 sigma otherwise). '
+              'FeatureCoverInjector (pandas groupby / sample) is bounded only, hence exploration.')
 ASSUMPTIONS = A_COMMON + [
     "A-MAT2: 2-D numpy arrays are total maps (row, column) -> real with exact lambda-array semantics for slices, column lists, boolean masks and np.where index sets; negative column indices and dtype coercion on assignment are outside the model (obligation col-in-range demands 0 <= c < width)",
     "A-UNIQUE-COLS: DataFrame column labels are integer codes and Index.get_loc is injective on present labels (unique column index)",
-    "np.random.choice([1, -1]) is an arbitrary member of the list; np.random.seed has no modelled effect",
+    "np.random.choice([1, -1]) is an arbitrary member of the list; np.random.choice(list, n, True, p) an arbitrary sequence of n members; np.random.seed / dirichlet have no modelled effect",
+    "A-OPAQUE-COLL: the class-probability dicts / lists of the resampling injectors are opaque collections (reads are arbitrary values, writes dropped); np.unique(vector) is a sequence of arbitrary values no longer than the vector",
 ]
